@@ -67,5 +67,5 @@ MANIFEST = {
   'level_text': 'CrossHair (Z3) symbolic execution of the real Python aggregate classes against list/multiset/set reference models: for all bounds in small windows, all flags, and all histories of <= 3-5 operations, an operation raises exactly when EXPRESS forbids it and size/bounds/indices/uniqueness agree with the reference. Held only on "Confirmed over all paths".',
   'level_note': 'Trusted: CrossHair 0.0.x/Z3, reference models in harness/C19/contracts.py. Bounds: b1,b2 in small windows, element pool of 3 INTEGERs + one wrong-typed value, histories <= 3-5 operations. Outside: nested aggregates, non-INTEGER base types, Builtin.py. Known findings (excluded by precondition, demonstrated concretely each run): see known_findings.json.',
   'technique': 'CrossHair/Z3 symbolic execution of the real stepcode Python runtime with symbolic bounds, flags and operation histories',
-  'design_ref': 'DESIGN.md section 3, C19', 'engine': 'pysym',
+  'design_ref': 'DESIGN.md section 2, C19', 'engine': 'pysym',
 }
